@@ -69,3 +69,17 @@ class Lazy(Transform):
         s = torch.sigmoid(inputs + self.gain)
         logabsdet = (torch.log(s) + torch.log1p(-s)).sum(-1)
         return s, logabsdet
+
+
+class Widening(Transform):
+    def __init__(self):
+        super().__init__()
+        self.bound = 20.0
+
+    def forward(self, inputs, context=None):
+        if self.training:
+            self.bound = max(self.bound, inputs.detach().abs().max().item())
+        return inputs / self.bound, inputs.new_zeros(inputs.shape[0])
+
+    def inverse(self, inputs, context=None):
+        return inputs * self.bound, inputs.new_zeros(inputs.shape[0])
